@@ -216,6 +216,16 @@ Definition sig_stale : bytes :=
 Definition with_sig (c : case) (info : sx) : sx :=
   if snd (model_output2 c) then SL [SL [SB [115;105;103]; SB sig_stale]; info] else info.
 
+(* second known finding: Copy computes ensureDstPath from the UNCLEANED dst, so a dst ending in
+   ".." (a/x/..) makes MkdirAll create a/x although the copy lands in a: an entry the source
+   does not have appears below the landing path *)
+Definition sig_dotdot : bytes :=
+  [100;115;116;45;100;111;116;100;111;116;45;101;120;116;114;97;45;100;105;114;101;99;116;111;114;121].
+Definition dst_has_dotdot (c : case) : bool := existsb (bytes_eqb s_dotdot) (comps (k_dstarg c)).
+Definition with_sig_iso (c : case) (info : sx) : sx :=
+  if snd (model_output2 c) then SL [SL [SB [115;105;103]; SB sig_stale]; info]
+  else if dst_has_dotdot c then SL [SL [SB [115;105;103]; SB sig_dotdot]; info] else info.
+
 Definition canon_output (impl : sx) : option sx :=
   match impl with
   | SL [r1; s] => r1' <- canon_run r1 ;; s' <- dec_snapshot s ;; Some (SL [r1'; enc_entries s'])
@@ -373,7 +383,7 @@ Definition run_1301 (input impl : sx) : sx :=
         if ck_skip k then v_ok else
         if negb (src_unchanged c s) then verdict m ci false (with_sig c (tag t_source []))
         else if negb (ck_ok k) then verdict m ci false (with_sig c (ck_info k))
-        else if negb (check_iso c after (ck_landings k) (ck_merged k)) then verdict m ci false (with_sig c (tag t_iso []))
+        else if negb (check_iso c after (ck_landings k) (ck_merged k)) then verdict m ci false (with_sig_iso c (tag t_iso []))
         else verdict m ci true (SL [])
       | None => v_malformed
       end
